@@ -885,6 +885,9 @@ def values_cmp(vm, ty, x, y, partial):
             r = values_cmp(vm, ta[i] if i < len(ta) else '', p, q, partial)
             if r != 0: return r
         return 0
+    if isinstance(x, Adt) and x.ty == 'Reverse':
+        r = values_cmp(vm, ta[0] if ta else '', x.fields[0], y.fields[0], partial)
+        return None if r is None else -r
     if head == 'Option':
         x, y = conc(vm, x), conc(vm, y)
         if x.variant != y.variant: return -1 if x.variant < y.variant else 1
